@@ -381,12 +381,16 @@ def _watchdog(signum, frame):
 
 def process(ck, cases, nvec):
   import signal
+  import gc
   signal.signal(signal.SIGALRM, _watchdog)
-  signal.alarm(60)
+  signal.alarm(120)
+  gc.disable()          # thousands of live component objects make every generational collection slower and slower
   try:
     _process(ck, cases, nvec)
   finally:
     signal.alarm(0)
+    G.drop_modules()
+    gc.enable(); gc.collect()
 
 def _process(ck, cases, nvec):
   rng = ck.rng
@@ -635,7 +639,7 @@ def run(ck):
       uid[0] += 1
       cs.append(f(uid[0]))
     process(ck, cs, nvec)
-  rounds = 14 if quick else 40
+  rounds = 30 if quick else 90
   per = 110 if quick else 300
   for _ in range(rounds):
     batch(per, lambda u: G.gen_typed(rng, u, 0.0, 'typed'))
